@@ -128,6 +128,9 @@ Section WithErf.
   Proof. reflexivity. Qed.
   Lemma K_ga_int_val a b : ga_int_val RN a b = b - a. Proof. reflexivity. Qed.
 
+  Lemma K_tp_total x : tp_total RN x = x. Proof. reflexivity. Qed.
+  Lemma K_tp_total_ret x : tp_total_ret RN x = x. Proof. reflexivity. Qed.
+
   (* ---------------------------------------------------------- model, set_params *)
   Lemma K_ffm_flux p s e t : ffm_flux RN p s e t = p * s * e * t. Proof. reflexivity. Qed.
   Lemma K_mf_changed v c : mf_changed RN v c = true <-> v <> c.
@@ -171,6 +174,11 @@ Section WithErf.
     rewrite K_ga_int_val, K_ga_int_i1, K_ga_int_i2, K_ga_int_c1, K_ga_int_c2, K_ga_int_t0,
       K_ga_int_clip1, K_ga_int_clip2. reflexivity.
   Qed.
+
+  (* get_total_integral is a function of the current support window only (no memo) *)
+  Lemma t_total_spec p :
+    t_total RN p = match p with UnityT _ ts te | Box _ ts te | Gauss _ ts te _ _ => t_int RN p None ts te end.
+  Proof. destruct p; cbn [t_total]; rewrite K_tp_total_ret, K_tp_total; reflexivity. Qed.
 
   (* ========================================================== power-law integral *)
   Lemma Rpower_div_split x E0 g : 0 < x -> 0 < E0 ->
